@@ -83,6 +83,17 @@ CLAIMED = {
         note="bounded, never counted as proved; the contract-level read-set/round-trip obligations of DESIGN 3/C09 are not built yet",
         technique="bounded run-time contract evaluation on the real save()/load() (stand-in for the planned read-set / round-trip contracts)",
         ref="3/C09"),
+    "C10": dict(
+        text="Proof, for every number of points: squared-exponential and rational-quadratic kernels equal their documented formula, are "
+             "symmetric in their arguments, the fast builder equals the pairwise evaluation plus the documented jitter, and every returned "
+             "hyper-parameter gradient matrix is the symbolic partial derivative of the built covariance (d in {1,2,3}); noise kernels, "
+             "sums (value, gradients, labels, bounds, slices concatenated in order), change-points of 2-4 kernels (weighted sum and exact "
+             "gradients, logistic weights under their own contract) and the three mean functions likewise. Bounded: eigenvalues (PSD), "
+             "builder vs pairwise, 4th-order finite differences on random kernels/compositions in d<=3.",
+        note="exp/log uninterpreted with axiom instances; real power a**b = exp(b log a) for positive base; positive-definiteness of SE/RQ, "
+             "closure under sums and Schur products are assumed lemmas applied to the proved formulas (PSD itself is bounded only); "
+             "spatial dimension proved per listed value; change-point kernels are SE with d=1 in the proof layer",
+        ref="3/C10"),
     "C13": dict(
         text="Proof: for every sample length, column count and fraction, the interval returned by the real sample_hdi code has "
              "two sorted sample values L=floor(f*n) positions apart as end points (so it holds L+1 > f*n points), no window of "
